@@ -580,7 +580,7 @@ class Interp:
         self.exec_block(st.orelse, env)
 
     def iterate(self, v, node=None):
-        if isinstance(v, (list, tuple, range, set, frozenset, dict, str)):
+        if isinstance(v, (list, tuple, range, set, frozenset, dict, str, bytes)):
             return list(v)
         if isinstance(v, (_Gen,)):
             return v.items
@@ -871,7 +871,7 @@ class Interp:
             raise OutOfSubset(f"setattr on {type(o).__name__}")
 
     def getitem(self, o, k, node=None):
-        if isinstance(o, (tuple, list, str)):
+        if isinstance(o, (tuple, list, str, bytes)):
             if isinstance(k, Z):
                 raise OutOfSubset("symbolic index into concrete sequence")
             try:
